@@ -95,13 +95,15 @@ impl Pattern {
         let prefix_regex = "^".to_string() + &grouped;
         let prefix_regex = Regex::new(prefix_regex.as_str(), opts.case_insensitive);
 
-        match anchored_regex {
-            Ok(anchored_regex) => Ok(Pattern {
+        // Both have to be checked. A backslash at the end of the pattern is an error that only
+        // the second one reveals, in the first one it escapes the appended `$`.
+        match (prefix_regex, anchored_regex) {
+            (Ok(prefix_regex), Ok(anchored_regex)) => Ok(Pattern {
                 src: pattern,
                 anchored_regex,
-                prefix_regex: prefix_regex.unwrap(),
+                prefix_regex,
             }),
-            Err(e) => Err(PatternError {
+            (Err(e), _) | (_, Err(e)) => Err(PatternError {
                 input: pattern,
                 cause: e.to_string(),
             }),
